@@ -13,8 +13,8 @@ for n in $names; do
   d=seeded/$n
   [ -f $d/patch.diff ] || continue
   id=$(python3 -c "import json;print(json.load(open('$d/meta.json'))['property'])")
-  if ! git -C /repo apply --check $d/patch.diff 2>/dev/null; then echo "$n: patch does not apply"; continue; fi
-  git -C /repo apply $d/patch.diff
+  if ! git -C /repo apply --check "$HERE/$d/patch.diff" 2>/dev/null; then echo "$n: patch does not apply"; continue; fi
+  git -C /repo apply "$HERE/$d/patch.diff"
   s=$(date +%s)
   VERIF_BUILD=/tmp/seedmatrix/build VERIF_OUT=/tmp/seedmatrix/$n ./run.sh $id quick > /tmp/seedmatrix/$n.log 2>&1
   rc=$?
